@@ -65,6 +65,12 @@ fn semantics(adf: &mut Adf) -> Vec<(&'static str, Vec<Vec<Term>>)> {
 }
 
 pub fn state_case(text: &str, tts: &[TT], bridged: bool, seq: &[usize]) -> Vec<(String, String)> {
+    state_case_g(text, tts, bridged, seq, false)
+}
+
+/// `grown`: before the export a second parser that shares the object's dictionary (AdfParser::with_var_container)
+/// parses a further module, so the shared ordering lists more statements than the object has conditions
+pub fn state_case_g(text: &str, tts: &[TT], bridged: bool, seq: &[usize], grown: bool) -> Vec<(String, String)> {
     let n = tts.len();
     let mut out = vec![];
     let parser = AdfParser::default();
@@ -76,6 +82,12 @@ pub fn state_case(text: &str, tts: &[TT], bridged: bool, seq: &[usize]) -> Vec<(
         let mut adf = if bridged { BdAdf::from_parser(&parser).hybrid_step_opt(false) } else { Adf::from_parser(&parser) };
         for c in seq {
             let _ = exec(&mut adf, *c);
+        }
+        if grown {
+            let p2 = AdfParser::with_var_container(adf.ordering.clone());
+            if p2.parse()("s(zz8).s(zz9).ac(zz8,neg(zz9)).ac(zz9,zz8).").is_err() {
+                panic!("the second module is rejected");
+            }
         }
         adf
     });
@@ -236,10 +248,76 @@ fn cli_case(cli: &str, dir: &str, idx: u64, text: &str, tts: &[TT]) -> Vec<(Stri
             out.push(("cli:export-existing-answer".into(), format!("export onto an {}: the requested grounded line is not printed: {:?}", what, o.stdout)));
         }
     }
+    // the target appears while the CLI is still reading its input: the input is a FIFO the harness feeds, so the
+    // other process's file creation falls between the start of the CLI and its export step
+    out.extend(late_target_schedule(cli, dir, idx, text, &marker));
     for p in [&input, &exp, &target, &link] {
         let _ = std::fs::remove_file(p);
     }
     let _ = std::fs::remove_dir_all(&sub);
+    out
+}
+
+fn late_target_schedule(cli: &str, dir: &str, idx: u64, text: &str, marker: &[u8]) -> Vec<(String, String)> {
+    use std::io::Write;
+    use std::os::unix::fs::OpenOptionsExt;
+    let mut out = vec![];
+    let fifo = format!("{}/fifo_{}", dir, idx);
+    let late = format!("{}/late_{}.json", dir, idx);
+    let _ = std::fs::remove_file(&fifo);
+    let _ = std::fs::remove_file(&late);
+    if !std::process::Command::new("mkfifo").arg(&fifo).status().map(|s| s.success()).unwrap_or(false) {
+        machinery_error("cannot create a FIFO");
+    }
+    let mut child = std::process::Command::new(cli)
+        .args(["--lib", "naive", "--grd", "--export", &late, "-q", &fifo])
+        .env_remove("RUST_LOG")
+        .env("RUST_BACKTRACE", "0")
+        .stdout(std::process::Stdio::piped())
+        .stderr(std::process::Stdio::null())
+        .spawn()
+        .unwrap_or_else(|e| machinery_error(&format!("cannot run the CLI binary: {}", e)));
+    // a non-blocking open for writing succeeds as soon as the CLI has opened the FIFO for reading (O_NONBLOCK = 0o4000)
+    let t0 = std::time::Instant::now();
+    let mut w = None;
+    while t0.elapsed().as_secs() < 20 {
+        match std::fs::OpenOptions::new().write(true).custom_flags(0o4000).open(&fifo) {
+            Ok(f) => {
+                w = Some(f);
+                break;
+            }
+            Err(_) => {
+                if let Ok(Some(_)) = child.try_wait() {
+                    break;
+                }
+                std::thread::sleep(std::time::Duration::from_millis(1));
+            }
+        }
+    }
+    match w {
+        None => {
+            let _ = child.kill();
+            let _ = child.wait();
+            out.push(("cli:input-not-read".into(), "the CLI ended (or waited 20 s) without opening its input file".into()));
+        }
+        Some(mut w) => {
+            // now the CLI is blocked reading its input: somebody else creates the export target
+            std::fs::write(&late, marker).unwrap();
+            let _ = w.write_all(text.as_bytes());
+            drop(w);
+            let o = child.wait_with_output().unwrap_or_else(|_| machinery_error("cannot wait for the CLI"));
+            if std::fs::read(&late).ok().as_deref() != Some(marker) {
+                out.push(("cli:export-overwrote".into(), "a file that appeared at the export target while the CLI was reading its input was overwritten by the export step".into()));
+            }
+            if o.status.code() != Some(0) {
+                out.push(("cli:export-existing-exit".into(), format!("export onto a target that appeared while the input was read exits with {:?}", o.status.code())));
+            } else if parse_stdout(&String::from_utf8_lossy(&o.stdout)).ok().map(|l| l.len()) != Some(1) {
+                out.push(("cli:export-existing-answer".into(), "export onto a target that appeared while the input was read: the requested grounded line is not printed".into()));
+            }
+        }
+    }
+    let _ = std::fs::remove_file(&fifo);
+    let _ = std::fs::remove_file(&late);
     out
 }
 
@@ -292,7 +370,7 @@ fn decode_seq(mut k: u64, len: usize) -> Vec<usize> {
 
 pub fn run_c14(run: &Run) {
     writers_selfcheck();
-    run.set_rule("states = ADF objects (native and bridged) of the named families, fresh and after every sequence of public calls up to the stated length (the 15-call alphabet of C11, so exports happen after the node table has grown); in each state both round trips are executed: serde JSON export/import + fix_import, and the string-encoded node list + ordering + root handles exactly as the web service's database layer stores them, rebuilt through Bdd::from(nodes) and Adf::from(..). Node table, roots and ordering must be identical; the re-imported store must satisfy the canonicity, memo and query invariants; every semantics answer of the re-imported object must equal the definition. CLI: --export then --import with each semantics flag on A(2); existing file / symlink / directory targets are never modified and the run still succeeds. Non-trivial: states reached by >= 1 call.");
+    run.set_rule("states = ADF objects (native and bridged) of the named families, fresh and after every sequence of public calls up to the stated length (the 15-call alphabet of C11, so exports happen after the node table has grown); in each state both round trips are executed: serde JSON export/import + fix_import, and the string-encoded node list + ordering + root handles exactly as the web service's database layer stores them, rebuilt through Bdd::from(nodes) and Adf::from(..). Node table, roots and ordering must be identical; the re-imported store must satisfy the canonicity, memo and query invariants; every semantics answer of the re-imported object must equal the definition. CLI: --export then --import with each semantics flag on A(2); existing file / symlink / directory targets are never modified and the run still succeeds, also when the target appears while the CLI is blocked reading its input (the input is a FIFO fed by the harness). Objects whose shared dictionary grew after construction (a second parser on the same VarContainer) are exported too. Non-trivial: states reached by >= 1 call.");
     run.assume("call histories up to length 2 before the export; ADFs with <= 3 statements");
     let quick = run.quick();
     let mut plan: Vec<(Source, usize)> = vec![(Source::FamCompact(fam_a(2)), 2), (Source::FamCompact(fam_f(3, 1)), 2), (if quick { Source::FamCompact(fam_f(3, 2)) } else { Source::Fam(fam_f(3, 2)) }, 1)];
@@ -322,6 +400,14 @@ pub fn run_c14(run: &Run) {
                         }
                         for (kind, msg) in state_case(&c.text, &c.tts, bridged, &seq) {
                             run.violation(&kind, format!("{} on {}", msg, c.text), json!({"type": "persist", "text": c.text, "tts": c.tts, "bridged": bridged, "calls": seq}));
+                        }
+                        // the shared dictionary grows before the export (short histories)
+                        if len == 0 || (maxlen == 2 && len == 1) {
+                            st.0 += 1;
+                            st.1 += 2;
+                            for (kind, msg) in state_case_g(&c.text, &c.tts, bridged, &seq, true) {
+                                run.violation(&kind, format!("{} on {} (the shared dictionary grew by two statements before the export)", msg, c.text), json!({"type": "persist", "text": c.text, "tts": c.tts, "bridged": bridged, "calls": seq, "grown": true}));
+                            }
                         }
                     }
                 }
@@ -366,9 +452,7 @@ pub fn run_c14(run: &Run) {
                 let (name, text, g, bridged) = &items[k as usize];
                 *st += 2;
                 run.heartbeat();
-                for (kind, msg) in scale_case(text, g, *bridged) {
-                    run.violation(&kind, format!("{} on {}", msg, name), json!({"type": "persist-scale", "text": text, "grounded": g, "bridged": bridged}));
-                }
+                run.isolated_case(json!({"type": "persist-scale", "text": text, "grounded": g, "bridged": bridged}), name);
             },
             &|k| json!({"type": "persist-scale", "name": items[k as usize].0}),
         );
@@ -416,5 +500,5 @@ pub fn replay(c: &Value) -> Vec<(String, String)> {
         return cli_case(&cli_path(), &tmp.0, 0, text, &tts);
     }
     let seq: Vec<usize> = c["calls"].as_array().map(|a| a.iter().map(|x| x.as_u64().unwrap_or(0) as usize).collect()).unwrap_or_default();
-    state_case(text, &tts, c["bridged"].as_bool().unwrap_or(false), &seq)
+    state_case_g(text, &tts, c["bridged"].as_bool().unwrap_or(false), &seq, c["grown"].as_bool().unwrap_or(false))
 }
